@@ -96,8 +96,8 @@ def check_final(pio, pos, n, mode):
     return None
 
 
-def _stress_child(q, base, nproc, nupd):
-    try:
+def _stress_target(base, nproc, nupd):
+    if True:
         from toasty.pyramid import PyramidIO, Pos
         from toasty.image import ImageMode
         pio = PyramidIO(base, default_format="npy")
@@ -113,9 +113,7 @@ def _stress_child(q, base, nproc, nupd):
         for p in ps:
             p.join()
         a = pio.read_image(Pos(2, 1, 3)).asarray()
-        q.put(float(a[0, 0]))
-    except BaseException as e:  # noqa
-        q.put(f"error {type(e).__name__}: {e}")
+        return float(a[0, 0])
 
 
 def main():
@@ -194,19 +192,14 @@ def main():
         h.case(("exhaustive", nruns), n=nruns)
         h.count("exhaustive_runs", nruns)
         # real processes
-        q = mp.Queue()
+        from .common import run_isolated
         base = os.path.join(root, "stress")
         nproc, nupd = (8, 25) if h.deep else (6, 12)
-        p = mp.Process(target=_stress_child, args=(q, base, nproc, nupd))
-        p.start()
-        p.join(180)
-        if p.is_alive():
-            p.kill()
-            p.join()
+        st, r = run_isolated(_stress_target, (base, nproc, nupd), 180)
+        if st == "hang":
             h.violation("stress:hang", f"{nproc} real processes x {nupd} updates did not finish in 180 s", input=[nproc, nupd])
         else:
-            r = q.get(timeout=2)
-            if r != float(nproc * nupd):
+            if st != "ok" or r != float(nproc * nupd):
                 h.violation("stress:lost", f"{nproc} real processes x {nupd} additive updates: final value {r}, expected {nproc * nupd}", input=[nproc, nupd])
         h.case(("stress", nproc, nupd))
         out = lean_driver(lines)
